@@ -137,6 +137,7 @@ func (t *Thread) Start(c Callable) {
 			args []Value
 			err  error
 		)
+		verifGoroutine("start", t)
 		// If there was a panic due to an exceeded quota, we need to end the
 		// thread and propagate that panic to the calling thread
 		defer func() {
@@ -152,6 +153,7 @@ func (t *Thread) Start(c Callable) {
 				}
 			}
 			t.end(args, err, r)
+			verifGoroutine("exit", t)
 		}()
 		args, err = t.getResumeValues()
 		if err == nil {
@@ -188,7 +190,9 @@ func (t *Thread) Resume(caller *Thread, args []Value) ([]Value, error) {
 	t.status = ThreadOK
 	t.mux.Unlock()
 	caller.mux.Unlock()
+	verifHandoff("resume.before-send", t, t)
 	t.sendResumeValues(args, nil, nil)
+	verifHandoff("resume.after-send", t, nil)
 	return caller.getResumeValues()
 }
 
@@ -218,7 +222,9 @@ func (t *Thread) Close(caller *Thread) (bool, error) {
 	t.status = ThreadOK
 	t.mux.Unlock()
 	caller.mux.Unlock()
+	verifHandoff("close.before-send", t, t)
 	t.sendResumeValues(nil, nil, threadClose{})
+	verifHandoff("close.after-send", t, nil)
 	_, err := caller.getResumeValues()
 	return true, err
 }
@@ -243,7 +249,9 @@ func (t *Thread) Yield(args []Value) ([]Value, error) {
 	t.caller = nil
 	t.mux.Unlock()
 	caller.mux.Unlock()
+	verifHandoff("yield.before-send", t, caller)
 	caller.sendResumeValues(args, nil, nil)
+	verifHandoff("yield.after-send", t, nil)
 	return t.getResumeValues()
 }
 
@@ -266,7 +274,9 @@ func (t *Thread) end(args []Value, err error, exception interface{}) {
 	t.caller = nil
 	err = t.cleanupCloseStack(nil, 0, err) // TODO: not nil
 	t.closeErr = err
+	verifHandoff("end.before-send", t, caller)
 	caller.sendResumeValues(args, err, exception)
+	verifHandoff("end.after-send", t, nil)
 	t.ReleaseBytes(2 << 10) // The goroutine will terminate after this
 }
 
